@@ -231,7 +231,8 @@ def project(sched, sid, rnd, origin):
                 # the specification says the server ends the connection after a database error: give it the time to do so
                 steps.append({'op': 'wait_eof', 'ms': 1500})
         if ticks > 0:
-            steps.append({'op': 'sleep', 'ms': max(50, min(ticks, 2) * 1000 + rnd.randint(-400, 300))})
+            # the model's step happens after the tick fired and before the service goroutine used it: in real time, shortly before that tick
+            steps.append({'op': 'sleep', 'ms': max(50, min(ticks, 2) * 1000 - 350 + rnd.randint(-150, 150))})
             ticks = 0
 
     for e in sched:
@@ -660,7 +661,7 @@ def run(tier):
             viols.append({'property': PID, 'signature': sig, 'msg': msg, 'replay': seen[sig]})
         nontrivial = sum(1 for (sc, res, tr, nl, mt) in work if sc['req'] == 'ok' and sc['meta']['queries'] >= 1)
         lc = stats['line_classes']
-        if nontrivial < 10 or lc.get('old', 0) < 1 or lc.get('due_framed', 0) < 3:
+        if not viols and (nontrivial < 10 or lc.get('old', 0) < 1 or lc.get('due_framed', 0) < 3):
             raise vlib.Infra('vacuous run: %d scenarios with a data query, line classes %s' % (nontrivial, lc))
         cov = {
             'states': sum(s['distinct'] for s in mc) + tstates,
